@@ -515,6 +515,79 @@ Proof.
   - intros Ha. apply converges_shift; [apply Z; exact Ha | intros; apply A; exact Ha].
 Qed.
 
+(* ------------------------------------------------------------ fuel-free reading, one and three arguments *)
+Definition forms1 (f : func) (a : val) : list expr :=
+  [form_call_n f [a]; form_splat_n f [a]; form_dot f a; form_calll f a; form_sect_1 f a;
+   form_splat_hole f [a]; form_apply_n f [a]; form_of_n f [a]].
+
+Lemma forms_1_need_fuel : forall f a,
+  eval 0 (form_dot f a) = OutOfFuel /\ eval 0 (form_calll f a) = OutOfFuel /\
+  eval 0 (form_sect_1 f a) = OutOfFuel /\ eval 0 (form_splat_hole f [a]) = OutOfFuel /\
+  eval 0 (form_apply_n f [a]) = OutOfFuel /\ eval 0 (form_of_n f [a]) = OutOfFuel.
+Proof. intros. repeat split; reflexivity. Qed.
+
+Lemma forms_converge_1 : forall f a r e, In e (forms1 f a) ->
+  (converges (fun n => eval n e) r <-> converges (fun n => run n f [a]) r).
+Proof.
+  intros f a r e He.
+  pose proof (fun n => forms_agree_1 n f a) as A. cbn zeta in A.
+  pose proof (forms_1_need_fuel f a) as Z.
+  unfold forms1 in He. cbn [In] in He.
+  repeat (destruct He as [He|He]; [subst e|]); try contradiction.
+  - apply converges_same. intros; apply A.
+  - apply converges_same. intros; apply A.
+  - apply converges_shift; [apply Z | intros; apply A].
+  - apply converges_shift; [apply Z | intros; apply A].
+  - apply converges_shift; [apply Z | intros; apply A].
+  - apply converges_shift; [apply Z | intros; apply A].
+  - apply converges_shift; [apply Z | intros; apply A].
+  - apply converges_shift; [apply Z | intros; apply A].
+Qed.
+
+Definition forms3 (f : func) (a b c : val) : list expr :=
+  [form_call_n f [a; b; c]; form_splat_n f [a; b; c]; form_partial_splat_3 f a b c;
+   form_splat_hole f [a; b; c]; form_apply_n f [a; b; c]; form_of_n f [a; b; c];
+   form_sect_mask f [(a, true); (b, false); (c, false)];
+   form_sect_mask f [(a, false); (b, true); (c, false)];
+   form_sect_mask f [(a, false); (b, false); (c, true)];
+   form_sect_mask f [(a, true); (b, true); (c, false)];
+   form_sect_mask f [(a, true); (b, false); (c, true)];
+   form_sect_mask f [(a, false); (b, true); (c, true)];
+   form_sect_mask f [(a, true); (b, true); (c, true)]].
+
+Lemma forms_3_need_fuel : forall f a b c,
+  eval 0 (form_splat_hole f [a; b; c]) = OutOfFuel /\
+  eval 0 (form_apply_n f [a; b; c]) = OutOfFuel /\ eval 0 (form_of_n f [a; b; c]) = OutOfFuel /\
+  (forall ha hb hc : bool, ha || hb || hc = true ->
+     eval 0 (form_sect_mask f [(a, ha); (b, hb); (c, hc)]) = OutOfFuel).
+Proof.
+  intros. repeat split; try reflexivity.
+  intros ha hb hc H. destruct ha, hb, hc; try discriminate; reflexivity.
+Qed.
+
+Lemma forms_converge_3 : forall f a b c r e, In e (forms3 f a b c) ->
+  (converges (fun n => eval n e) r <-> converges (fun n => run n f [a; b; c]) r).
+Proof.
+  intros f a b c r e He.
+  pose proof (fun n => forms_agree_3 n f a b c) as A. cbn zeta in A.
+  pose proof (forms_3_need_fuel f a b c) as Z.
+  unfold forms3 in He. cbn [In] in He.
+  repeat (destruct He as [He|He]; [subst e|]); try contradiction.
+  - apply converges_same. intros; apply A.
+  - apply converges_same. intros; apply A.
+  - apply converges_same. intros; apply A.
+  - apply converges_shift; [apply Z | intros; apply A].
+  - apply converges_shift; [apply Z | intros; apply A].
+  - apply converges_shift; [apply Z | intros; apply A].
+  - apply converges_shift; [apply Z; reflexivity | intros; apply A; reflexivity].
+  - apply converges_shift; [apply Z; reflexivity | intros; apply A; reflexivity].
+  - apply converges_shift; [apply Z; reflexivity | intros; apply A; reflexivity].
+  - apply converges_shift; [apply Z; reflexivity | intros; apply A; reflexivity].
+  - apply converges_shift; [apply Z; reflexivity | intros; apply A; reflexivity].
+  - apply converges_shift; [apply Z; reflexivity | intros; apply A; reflexivity].
+  - apply converges_shift; [apply Z; reflexivity | intros; apply A; reflexivity].
+Qed.
+
 (* ------------------------------------------------------------ op-assign whose right-hand side reads the place *)
 Notation op_assign_store := (op_assign_store brun crun diter).
 
